@@ -10,6 +10,7 @@ import (
 	"path/filepath"
 	"sort"
 	"strings"
+	"sync"
 
 	"golang.org/x/tools/go/packages"
 	"golang.org/x/tools/go/ssa"
@@ -34,6 +35,8 @@ type Program struct {
 	modCycleHits int
 	usedIntrinsics map[string]bool
 	missing []string
+	mu sync.Mutex
+	contractDiffs []string
 	contractList []*Contract
 	gconst    map[*ssa.Global]*globalInit
 	gconstOK  bool
